@@ -146,7 +146,8 @@ def write_evidence(tier, seed, cov, wall, violations, assumptions):
 
 SUMMED = ["runs", "calls", "forks", "nontrivial_runs", "isolation_checks", "disagreements", "signals_caught", "items_lost",
           "hung_children", "unstable", "fine_executions", "concurrent_segments", "concurrent_calls", "yield_points",
-          "preemptions", "baton_handoffs", "long_runs", "very_long_runs", "churn_runs", "planned_respawns", "threads_started"]
+          "preemptions", "baton_handoffs", "long_runs", "very_long_runs", "churn_runs", "planned_respawns", "threads_started",
+          "access_records", "nonstack_writes_observed", "conflicting_call_pairs", "plans_with_conflicts", "directed_executions"]
 
 
 def run_check(tier, seed):
@@ -276,6 +277,18 @@ def run_check(tier, seed):
         "serial_mode": {k: by_mode["serial"][k] for k in ("runs", "calls", "isolation_checks", "disagreements")},
         "fine_mode": {k: by_mode["fine"][k] for k in ("runs", "fine_executions", "calls", "concurrent_segments", "concurrent_calls", "yield_points",
                                                        "preemptions", "baton_handoffs", "isolation_checks", "disagreements")},
+        "conflict_feedback": {
+            "what": ("the whole-call reference execution of every fine-mode plan logs each distinct non-stack address each call reads or "
+                     "writes; two calls of different callers conflict when one writes an address the other touches; up to 4 extra "
+                     "executions per plan put a conflicting pair in flight together and preempt at the conflicting addresses"),
+            "distinct_address_touches_logged": by_mode["fine"]["access_records"],
+            "nonstack_writes_by_library_calls": by_mode["fine"]["nonstack_writes_observed"],
+            "conflicting_call_pairs": by_mode["fine"]["conflicting_call_pairs"],
+            "plans_with_conflicts": by_mode["fine"]["plans_with_conflicts"],
+            "conflict_directed_executions": by_mode["fine"]["directed_executions"],
+            "reading": ("0 writes / 0 conflicts means: in every explored plan no library call wrote memory another call could see, so all "
+                        "interleavings of those calls are equivalent to the whole-call execution (a dynamic confirmation, for the explored "
+                        "plans, of what audit/seam_audit.py shows statically)")},
         "library_calls_executed": total["calls"],
         "processes_forked": total["forks"],
         "simulated_time": "not applicable: the library has no clock, timer or deadline; progress is counted in calls and yield points",
